@@ -107,10 +107,39 @@ SEEDS2.update({
     "C18-3": ("C18", ["C18"], "client.tilePath rewritten recursively; the quotient is printed as one x%03d component (wrong from index 10^6)", "tile index >= 1,000,000"),
     "C18-4": ("C18", ["C18", "C14"], "sumdb feeder: SaveTiles cache keyed by (level, index) without width, reader hoisted out of the proof closure", "one running periodic feeder building two or more proofs for a growing log"),
 })
+# round 3: the agents were additionally told that a property-based/fuzzing harness will hunt the change and
+# were asked for defects such a harness is unlikely to hit by generic random generation
+SEEDS3 = {
+    "C01-5": ("C01", ["C07", "C01", "C06"], "sql: Set only stages the INSERT, Close() commits; Witness.Update discards Close's error, so a COMMIT failure is swallowed (cosigned but never stored)", "SQL storage and a fault exactly at COMMIT, then an update built on the stale stored checkpoint"),
+    "C01-6": ("C01", ["C05", "C01"], "inmemory.expectAndWrite collapsed to one condition (the 'read no state so none may exist' arm is gone)", "two overlapping first-contact updates on the in-memory store with mutually inconsistent checkpoints"),
+    "C02-5": ("C02", ["C02", "C12"], "witness.parse memo keyed by (key name, key hash, sha256(raw)) but not the origin", "shared-key sibling logs; the sibling's accepted checkpoint replayed byte-identically to the other ID"),
+    "C02-6": ("C02", ["C02", "C12"], "witness.parse: fail-fast origin pre-check bytes.HasPrefix(raw, origin) replaces the exact origin comparison", "a shared key and one origin a strict prefix of the other; the longer-origin checkpoint submitted to the shorter-origin ID"),
+    "C03-5": ("C03", ["C03"], "witness: setWithContext runs Set in a goroutine and returns on ctx.Done(); the abandoned write still lands", "the request context cancelled exactly while Set is in flight (refused, but the checkpoint appears later)"),
+    "C03-6": ("C03", ["C03", "C07"], "sql: write-through read cache filled after the INSERT and before COMMIT", "SQL storage, a COMMIT failure after a good Exec, then a read in the same process"),
+    "C05-5": ("C05", ["C05"], "inmemory compare-and-set split across two lock scopes (check under RLock, write under Lock)", "two Set calls overlapping INSIDE the store (a window of a few hundred nanoseconds within one storage operation)"),
+    "C05-6": ("C05", ["C05", "C16"], "witness: latest-checkpoint cache filled after Set in completion order; reads served from it", "two accepted overlapping updates of one log, the first paused between its Set returning and its cache store; then a read"),
+    "C06-5": ("C06", ["C06"], "sql: per-log read cache updated inside Set after Exec but before Commit", "a concurrent read of the same log while an update is between Exec and the end of Commit, plus a kill in that window"),
+    "C06-6": ("C06", ["C06"], "witness: memo of the last cosigned checkpoint answers identical same-second resubmissions without touching the store (recorded before Set commits)", "the same bytes resubmitted concurrently in the same second while the original is before its COMMIT, plus a kill"),
+    "C07-5": ("C07", ["C07"], "sql.getLatestCheckpoint via Query/rows.Next without rows.Err", "a driver error while stepping to the previous checkpoint's row"),
+    "C07-6": ("C07", ["C07"], "sql.Set: UPDATE then INSERT if no row was affected; the INSERT's error is assigned to a shadowed variable and lost", "SQL storage, first-use position, a fault on the SECOND Exec of the transaction while the first succeeds"),
+    "C08-5": ("C08", ["C08"], "(see author notes)", "(see author notes)"),
+    "C08-6": ("C08", ["C08"], "(see author notes)", "(see author notes)"),
+    "C09-5": ("C09", ["C09"], "witness.Update: same-size branch returns (prevRaw, nil) when the submitted bytes equal the stored bytes (skips the proof rule)", "exactly the stored cosigned note resubmitted with old = stored size and a NON-EMPTY proof"),
+    "C09-6": ("C09", ["C09", "C02"], "witness.parse memo keyed by sha256(raw) only", "two logs; bytes verified for one log cross-submitted under the other's ID"),
+    "C10-5": ("C10", ["C10"], "witness.Update: same size and same root returns (prevRaw, nil) (no re-sign, proof not looked at)", "an accepted checkpoint, then a log-signed same-size same-root checkpoint with other extension lines, or a same-size resubmission with a proof line"),
+    "C10-6": ("C10", ["C10"], "bastion: stale 409 body formatted with strconv.Itoa(int(size)) (wraps negative from 2^63)", "the witness first accepts a checkpoint of size >= 2^63, then a request with a stale old size"),
+    "C13-5": ("C13", ["C13"], "feeder: consistency proof hoisted out of the retried closure and fetched only once", "an attempt that reaches Update and fails, then the witness reporting a different latest in the next attempt"),
+    "C13-6": ("C13", ["C13"], "FeedOnce forwards a note re-signed over cpSubmit.Marshal() instead of the verified text", "a log-signed checkpoint with extension lines or a non-canonical size spelling"),
+    "C16-5": ("C16", ["C16"], "client GetLatestCheckpoint reads the body with io.CopyN(resp.ContentLength) (0 bytes when the response is chunked / length unknown)", "a stored cosigned checkpoint larger than net/http's 2 KiB sniff buffer (no Content-Length)"),
+    "C16-6": ("C16", ["C16", "C04"], "witness read cache refreshed at two of the three store sites (not the size-0 branch)", "first accepted update at size 0, a second accepted size-0 update with different bytes, then a GET"),
+    "C19-5": ("C19", ["C19"], "rekor feeder: merged shard structs with []*shardInfo; a JSON null element in inactiveShards is dereferenced", "a 200 JSON reply whose inactiveShards contains a literal null and no earlier shard matches the treeID"),
+    "C19-6": ("C19", ["C19", "C14"], "feeder.Run returns the (shadowed per-cycle) context error when a cycle times out, ending the feeder and, through Main's errgroup, the service", "continuous mode and a failure inside the retry loop that lasts a whole interval (e.g. a fork)"),
+}
+SEEDS2.update(SEEDS3)
 SRC = {}
 for _sid in SEEDS2:
     _pid, _k = _sid.split("-")
-    SRC[_sid] = f"/tmp/seed2/{_pid}/_out/{int(_k) - 2}"
+    SRC[_sid] = f"/tmp/seed2/{_pid}/_out/{int(_k) - 2}" if int(_k) <= 4 else f"/tmp/seed3/{_pid}/_out/{int(_k) - 4}"
 SEEDS.update(SEEDS2)
 
 
